@@ -469,3 +469,279 @@ pub fn out_keyed_bounded_value_snapshots<'a>(p: &P<'a>, x: KeyedSingleton<i32, i
     );
 }
 
+
+// ------------------------------------------------------------------------------------------
+// x_*: depth-1 coverage of the remaining safe public APIs (no `nondet!` argument) of top-level
+// Stream / Singleton / Optional / KeyedSingleton (C28). Keyed-stream additions are `k_*` below.
+// ------------------------------------------------------------------------------------------
+use hydro_lang::live_collections::keyed_stream::Generate;
+
+fn const_ks<'a>(p: &P<'a>) -> KeyedSingleton<i32, i32, P<'a>, Bounded> {
+    p.source_iter(q!(vec![(0, 5), (1, 6)])).into_keyed().first()
+}
+
+// ---- Singleton::threshold_greater_or_equal on count / monotone fold, thresholds 1..3 and `s`
+pub fn x_thr_count_1<'a>(a: SP<'a>, b: SP<'a>, s: SG<'a>) {
+    let p = a.location().clone();
+    out_total(a.count().threshold_greater_or_equal(p.singleton(q!(1usize))).map(q!(|t| (0, t as i32))));
+}
+pub fn x_thr_count_2<'a>(a: SP<'a>, b: SP<'a>, s: SG<'a>) {
+    let p = a.location().clone();
+    out_total(a.count().threshold_greater_or_equal(p.singleton(q!(2usize))).map(q!(|t| (0, t as i32))));
+}
+pub fn x_thr_count_3<'a>(a: SP<'a>, b: SP<'a>, s: SG<'a>) {
+    let p = a.location().clone();
+    out_total(a.count().threshold_greater_or_equal(p.singleton(q!(3usize))).map(q!(|t| (0, t as i32))));
+}
+pub fn x_thr_count_s<'a>(a: SP<'a>, b: SP<'a>, s: SG<'a>) {
+    out_total(a.count().threshold_greater_or_equal(s.map(q!(|s| s as usize))).map(q!(|t| (0, t as i32))));
+}
+fn monotone_sum<'a>(a: SP<'a>) -> Singleton<i32, P<'a>, Monotonic> {
+    a.fold(q!(|| 0i32), q!(|acc, (_k, v)| *acc += v, monotone = manual_proof!(/** all values are >= 0 */)))
+}
+pub fn x_thr_fold_1<'a>(a: SP<'a>, b: SP<'a>, s: SG<'a>) {
+    let p = a.location().clone();
+    out_total(monotone_sum(a).threshold_greater_or_equal(p.singleton(q!(1i32))).map(q!(|t| (0, t))));
+}
+pub fn x_thr_fold_2<'a>(a: SP<'a>, b: SP<'a>, s: SG<'a>) {
+    let p = a.location().clone();
+    out_total(monotone_sum(a).threshold_greater_or_equal(p.singleton(q!(2i32))).map(q!(|t| (0, t))));
+}
+pub fn x_thr_fold_3<'a>(a: SP<'a>, b: SP<'a>, s: SG<'a>) {
+    let p = a.location().clone();
+    out_total(monotone_sum(a).threshold_greater_or_equal(p.singleton(q!(3i32))).map(q!(|t| (0, t))));
+}
+// ---- KeyedSingleton::threshold_greater_or_equal{,_uniform}
+pub fn x_kthr_uniform_1<'a>(a: SP<'a>, b: SP<'a>, s: SG<'a>) {
+    let p = a.location().clone();
+    out_unordered(
+        a.into_keyed().value_counts().threshold_greater_or_equal_uniform(p.singleton(q!(1usize))).entries().map(q!(|(k, t)| (k, t as i32))),
+    );
+}
+pub fn x_kthr_uniform_2<'a>(a: SP<'a>, b: SP<'a>, s: SG<'a>) {
+    let p = a.location().clone();
+    out_unordered(
+        a.into_keyed().value_counts().threshold_greater_or_equal_uniform(p.singleton(q!(2usize))).entries().map(q!(|(k, t)| (k, t as i32))),
+    );
+}
+/// self: per-key counts of `a` (MonotonicValue); thresholds: first value per key of `b` (BoundedValue).
+pub fn x_kthr_counts<'a>(a: SP<'a>, b: SP<'a>, s: SG<'a>) {
+    out_unordered(
+        a.into_keyed()
+            .value_counts()
+            .threshold_greater_or_equal(b.into_keyed().first().map(q!(|v| v as usize)))
+            .entries()
+            .map(q!(|(k, t)| (k, t as i32))),
+    );
+}
+/// self: first value per key of `a` (BoundedValue); thresholds: first value per key of `b`.
+pub fn x_kthr_first<'a>(a: SP<'a>, b: SP<'a>, s: SG<'a>) {
+    out_unordered(a.into_keyed().first().threshold_greater_or_equal(b.into_keyed().first()).entries());
+}
+
+// ---- Singleton
+pub fn x_sg_map<'a>(a: SP<'a>, b: SP<'a>, s: SG<'a>) {
+    let p = a.location().clone();
+    out_singleton(&p, a.fold(q!(|| 0i32), q!(|acc, (_k, v)| *acc = acc.wrapping_mul(3).wrapping_add(v))).map(q!(|x| x * 2 + 1)));
+}
+pub fn x_sg_filter_map<'a>(a: SP<'a>, b: SP<'a>, s: SG<'a>) {
+    let p = a.location().clone();
+    out_optional(&p, a.count().ignore_monotonic().filter_map(q!(|c| if c % 2 == 0 { Some(c as i32 + 10) } else { None })));
+}
+pub fn x_sg_into_optional<'a>(a: SP<'a>, b: SP<'a>, s: SG<'a>) {
+    let p = a.location().clone();
+    out_optional(&p, a.max().into_singleton().into_optional());
+}
+pub fn x_sg_not<'a>(a: SP<'a>, b: SP<'a>, s: SG<'a>) {
+    let p = a.location().clone();
+    out_singleton(&p, !a.first().is_some());
+}
+/// Bounded singleton algebra: equals / and / or / not feeding Stream::filter_if.
+pub fn x_sg_bool_filter_if<'a>(a: SP<'a>, b: SP<'a>, s: SG<'a>) {
+    let p = a.location().clone();
+    let e1 = s.clone().equals(p.singleton(q!(1)));
+    let e2 = s.equals(p.singleton(q!(2)));
+    out_total(a.filter_if(e1.or(e2.clone()).and(!e2)));
+}
+pub fn x_sg_filter_if<'a>(a: SP<'a>, b: SP<'a>, s: SG<'a>) {
+    let p = a.location().clone();
+    let e1 = s.clone().equals(p.singleton(q!(1)));
+    out_total(s.filter_if(e1).into_stream().map(q!(|s| (9, s))).chain(a));
+}
+pub fn x_sg_flat_map_ordered<'a>(a: SP<'a>, b: SP<'a>, s: SG<'a>) {
+    out_total(s.flat_map_ordered(q!(|s| vec![(8, s), (9, s)])).chain(a));
+}
+pub fn x_sg_flatten_unordered<'a>(a: SP<'a>, b: SP<'a>, s: SG<'a>) {
+    out_unordered(s.map(q!(|s| vec![(8, s), (9, s)])).flatten_unordered().chain(a));
+}
+
+// ---- Optional
+pub fn x_op_map<'a>(a: SP<'a>, b: SP<'a>, s: SG<'a>) {
+    let p = a.location().clone();
+    out_optional(&p, a.max().map(q!(|(k, v)| (k, v + 1))));
+}
+pub fn x_op_filter<'a>(a: SP<'a>, b: SP<'a>, s: SG<'a>) {
+    let p = a.location().clone();
+    out_optional(&p, a.max().filter(q!(|(_k, v)| *v != 0)));
+}
+pub fn x_op_filter_map<'a>(a: SP<'a>, b: SP<'a>, s: SG<'a>) {
+    let p = a.location().clone();
+    out_optional(&p, a.last().filter_map(q!(|(k, v)| if v > 0 { Some(k + v) } else { None })));
+}
+pub fn x_op_unwrap_or<'a>(a: SP<'a>, b: SP<'a>, s: SG<'a>) {
+    let p = a.location().clone();
+    out_singleton(&p, a.max().unwrap_or(b.fold(q!(|| (7, 7)), q!(|acc, x| *acc = x))));
+}
+pub fn x_op_unwrap_or_default<'a>(a: SP<'a>, b: SP<'a>, s: SG<'a>) {
+    let p = a.location().clone();
+    out_singleton(&p, a.min().unwrap_or_default());
+}
+pub fn x_op_is_none<'a>(a: SP<'a>, b: SP<'a>, s: SG<'a>) {
+    let p = a.location().clone();
+    out_singleton(&p, a.filter(q!(|&(_k, v)| v == 2)).first().is_none());
+}
+pub fn x_op_into_keyed_singleton<'a>(a: SP<'a>, b: SP<'a>, s: SG<'a>) {
+    let p = a.location().clone();
+    out_keyed_singleton(&p, a.max().into_keyed_singleton());
+}
+/// Bounded optional algebra: filter / zip / is_some_and_equals / filter_if / flatten.
+pub fn x_op_bounded<'a>(a: SP<'a>, b: SP<'a>, s: SG<'a>) {
+    let p = a.location().clone();
+    let o1 = s.clone().filter(q!(|s| *s == 1)); // Some(1) iff s == 1
+    let z = o1.clone().zip(s.clone()); // Some((1, 1)) iff s == 1
+    let same = o1.clone().is_some_and_equals(p.singleton(q!(1)).filter(q!(|_| true)));
+    out_total(z.filter_if(same).into_stream().chain(o1.map(q!(|s| vec![(7, s)])).flatten_ordered()).chain(a));
+}
+
+// ---- KeyedSingleton
+pub fn x_ks_values<'a>(a: SP<'a>, b: SP<'a>, s: SG<'a>) {
+    out_unordered(a.into_keyed().first().values().map(q!(|v| (0, v))));
+}
+pub fn x_ks_keys<'a>(a: SP<'a>, b: SP<'a>, s: SG<'a>) {
+    out_unordered(a.into_keyed().first().keys().map(q!(|k| (k, 0))));
+}
+pub fn x_ks_map_with_key_inspect<'a>(a: SP<'a>, b: SP<'a>, s: SG<'a>) {
+    out_unordered(
+        a.into_keyed().first().map_with_key(q!(|(k, v)| v + 10 * k)).inspect(q!(|_v| {})).inspect_with_key(q!(|_kv| {})).entries(),
+    );
+}
+pub fn x_ks_filter_map<'a>(a: SP<'a>, b: SP<'a>, s: SG<'a>) {
+    out_unordered(a.into_keyed().first().filter_map(q!(|v| if v > 0 { Some(v - 1) } else { None })).entries());
+}
+pub fn x_ks_filter_key_not_in<'a>(a: SP<'a>, b: SP<'a>, s: SG<'a>) {
+    let p = a.location().clone();
+    out_unordered(a.into_keyed().first().filter_key_not_in(p.source_iter(q!(vec![1]))).entries());
+}
+pub fn x_ks_into_keyed_stream<'a>(a: SP<'a>, b: SP<'a>, s: SG<'a>) {
+    out_keyed_total(a.into_keyed().first().into_keyed_stream());
+}
+pub fn x_ks_unbounded_map_with_key<'a>(a: SP<'a>, b: SP<'a>, s: SG<'a>) {
+    let p = a.location().clone();
+    out_keyed_singleton(
+        &p,
+        a.into_keyed().fold(q!(|| 0i32), q!(|acc, v| *acc = acc.wrapping_mul(3).wrapping_add(v))).map_with_key(q!(|(k, v)| v + 1000 * k)),
+    );
+}
+/// Bounded keyed singleton: get / join_keyed_stream / join_keyed_singleton / lookup_keyed_singleton.
+pub fn x_ks_get<'a>(a: SP<'a>, b: SP<'a>, s: SG<'a>) {
+    let p = a.location().clone();
+    out_total(const_ks(&p).get(s.map(q!(|s| s % 2))).into_stream().map(q!(|v| (9, v))).chain(a));
+}
+pub fn x_ks_join_keyed_stream<'a>(a: SP<'a>, b: SP<'a>, s: SG<'a>) {
+    let p = a.location().clone();
+    out_keyed_total(const_ks(&p).join_keyed_stream(a.into_keyed()).map(q!(|(w, v)| v * 10 + w)));
+}
+pub fn x_ks_join_lookup<'a>(a: SP<'a>, b: SP<'a>, s: SG<'a>) {
+    let p = a.location().clone();
+    let other = p.source_iter(q!(vec![(1, 3), (2, 4)])).into_keyed().first();
+    let lookup = p.source_iter(q!(vec![(5, 50)])).into_keyed().first();
+    let joined = const_ks(&p).join_keyed_singleton(other).entries().map(q!(|(k, (v, w))| (k, v * 10 + w)));
+    let looked = const_ks(&p).lookup_keyed_singleton(lookup).entries().map(q!(|(k, (v, o))| (k + 100, v * 100 + o.unwrap_or(-1))));
+    out_unordered(joined.chain(looked).chain(a));
+}
+
+// ---- Stream
+pub fn x_flatten_ordered<'a>(a: SP<'a>, b: SP<'a>, s: SG<'a>) {
+    out_total(a.map(q!(|(k, v)| vec![(k, v), (1 - k, v + 10)])).flatten_ordered());
+}
+pub fn x_flatten_unordered<'a>(a: SP<'a>, b: SP<'a>, s: SG<'a>) {
+    out_unordered(a.map(q!(|(k, v)| vec![(k, v), (1 - k, v + 10)])).flatten_unordered());
+}
+pub fn x_partition_true<'a>(a: SP<'a>, b: SP<'a>, s: SG<'a>) {
+    // note: simply dropping the false side makes generate_embedded panic ("`partition` must have at
+    // least 2 output(s), actually has 1"), so it is consumed by a no-op for_each
+    let (t, f) = a.partition(q!(|&(_k, v)| v != 1));
+    f.for_each(q!(|_| {}));
+    out_total(t);
+}
+pub fn x_partition_merge<'a>(a: SP<'a>, b: SP<'a>, s: SG<'a>) {
+    let (t, f) = a.partition(q!(|&(_k, v)| v != 1));
+    out_unordered(t.map(q!(|(k, v)| (k, v + 100))).merge_unordered(f));
+}
+pub fn x_generator<'a>(a: SP<'a>, b: SP<'a>, s: SG<'a>) {
+    out_total(a.generator(
+        q!(|| 0i32),
+        q!(|acc, (k, v)| {
+            *acc += v;
+            if *acc >= 4 {
+                Generate::Return((k, *acc))
+            } else if v == 0 {
+                Generate::Continue
+            } else {
+                Generate::Yield((k, *acc))
+            }
+        }),
+    ));
+}
+pub fn x_atomic_roundtrip<'a>(a: SP<'a>, b: SP<'a>, s: SG<'a>) {
+    out_total(a.ir_node_named("named").atomic().end_atomic());
+}
+pub fn x_bounded_nested_loop<'a>(a: SP<'a>, b: SP<'a>, s: SG<'a>) {
+    let p = a.location().clone();
+    let l = p.source_iter(q!(vec![(0, 1), (1, 2)])).make_bounded();
+    let r = p.source_iter(q!(vec![(0, 3), (0, 4)]));
+    out_total(
+        l.cross_product_nested_loop(r).map(q!(|((k1, v1), (k2, v2))| (k1 + 2 * k2, v1 * 10 + v2))).chain(a).weaken_boundedness::<Unbounded>(),
+    );
+}
+
+// ---- KeyedStream additions (also in the C29 keyed table)
+pub fn x_k_values<'a>(a: SP<'a>, b: SP<'a>, s: SG<'a>) {
+    out_unordered(a.into_keyed().values().map(q!(|v| (0, v))));
+}
+pub fn k_prefix_drop<'a>(a: SP<'a>, b: SP<'a>, s: SG<'a>) {
+    out_unordered(a.into_keyed().prefix_key(q!(|kv| kv.1 % 2)).drop_key_prefix().entries());
+}
+pub fn k_filter_with_key<'a>(a: SP<'a>, b: SP<'a>, s: SG<'a>) {
+    out_keyed_total(a.into_keyed().filter_with_key(q!(|kv| kv.0 + kv.1 != 1)));
+}
+pub fn k_filter_map_with_key<'a>(a: SP<'a>, b: SP<'a>, s: SG<'a>) {
+    out_keyed_total(a.into_keyed().filter_map_with_key(q!(|(k, v)| if v > 0 { Some(v + 10 * k) } else { None })));
+}
+pub fn k_inspect_with_key<'a>(a: SP<'a>, b: SP<'a>, s: SG<'a>) {
+    out_keyed_total(a.into_keyed().inspect_with_key(q!(|_kv| {})));
+}
+pub fn k_flatten_ordered<'a>(a: SP<'a>, b: SP<'a>, s: SG<'a>) {
+    out_keyed_total(a.into_keyed().map(q!(|v| vec![v, v + 10])).flatten_ordered());
+}
+pub fn k_flat_map_flatten_unordered<'a>(a: SP<'a>, b: SP<'a>, s: SG<'a>) {
+    out_unordered(a.into_keyed().flat_map_unordered(q!(|v| vec![vec![v], vec![v + 10]])).flatten_unordered().entries());
+}
+pub fn k_generator<'a>(a: SP<'a>, b: SP<'a>, s: SG<'a>) {
+    out_keyed_total(a.into_keyed().generator(
+        q!(|| 0i32),
+        q!(|acc, v| {
+            *acc += v;
+            if *acc >= 3 {
+                Generate::Return(*acc)
+            } else if v == 0 {
+                Generate::Continue
+            } else {
+                Generate::Yield(*acc)
+            }
+        }),
+    ));
+}
+pub fn k_atomic_roundtrip<'a>(a: SP<'a>, b: SP<'a>, s: SG<'a>) {
+    out_keyed_total(a.into_keyed().atomic().end_atomic());
+}
